@@ -1,5 +1,8 @@
 import HC.Prelude
 import HC.Pure.Middleware
 import HC.Pure.Config
+import HC.Stream.Http
+import HC.Stream.Ws
 import HC.Props.C20
 import HC.Props.C19
+import HC.Props.C12
